@@ -385,6 +385,25 @@ func (glue_{{.V}}) MutateToken(x interface{}) {
 	}
 }
 
+func (glue_{{.V}}) TokMethods(x interface{}) {
+	t, ok := x.(*token_{{.V}}.Token)
+	if !ok || t == nil {
+		return
+	}
+	defer func() { recover() }() // some helpers slice the literal and panic on short ones
+	_ = t.IDValue()
+	_, _ = t.Int64Value()
+	_, _ = t.Int32Value()
+	_, _ = t.Float64Value()
+	_, _ = t.UTF8Rune()
+	_ = t.Equals(t)
+	_ = t.Pos.String()
+	_ = token_{{.V}}.TokMap.TokenString(t)
+	_ = token_{{.V}}.TokMap.StringType(t.Type)
+	_ = t.StringValue()
+	_ = t.CharLiteralValue()
+}
+
 func (glue_{{.V}}) TokInfo(x interface{}) (harness.TokInfo, bool) {
 	t, ok := x.(*token_{{.V}}.Token)
 	if !ok || t == nil {
